@@ -880,6 +880,59 @@ def core_translation(res, tier, seed, workdir, stats):
         stats.append(dict(st2, escalation="core translation"))
 
 
+SIMD_LEAN = os.path.join(hh.LEAN, "HH", "Generated", "SimdCore.lean")
+SIMD_THMS = {"SseHash::zipper_merge": "Sse.zipperMerge_eq", "SseHash::update": "Sse.update_eq", "SseHash::permute_and_update": "Sse.permuteAndUpdate_eq",
+             "SseHash::modular_reduction": "Sse.modularReduction_eq", "AvxHash::zipper_merge": "Avx.zipperMerge_eq", "AvxHash::update": "Avx.update_eq",
+             "AvxHash::permute_and_update": "Avx.permuteAndUpdate_eq", "AvxHash::modular_reduction": "Avx.modularReduction_eq", "AvxHash::permute": "Avx.permute_eq"}
+
+
+def simd_translation(res, tier, seed, workdir, stats):
+    """second tie for the straight-line intrinsic code of C02: `simdgen` interprets src/x86/sse.rs + v2x64u.rs and
+    src/x86/avx.rs + v4x64u.rs symbolically (newtype erased, operators resolved through the wrapper's own trait and
+    inherent impls, every `_mm*` call mapped to the modelled intrinsic) and emits HH/Generated/SimdCore.lean with one
+    theorem per function: translation = hand-written SSE/AVX model, for all register values (by `rfl`).  Advisory, like
+    the portable core translation: never an alarm by itself."""
+    cdir = os.path.join(hh.ROOT, "harness", "facts")
+    rc, out, err = hh.sh(["cargo", "build", "--offline", "--release", "-q"], cwd=cdir, env={"CARGO_TARGET_DIR": os.path.join(hh.BUILD, "t-facts")}, timeout=1800)
+    info = dict(translator="harness/facts/src/bin/simdgen.rs (syn; symbolic execution of sse.rs/avx.rs with their wrapper types v2x64u.rs/v4x64u.rs)")
+    res.cov["source_translation"] = info
+    if rc != 0:
+        info["status"] = "not executed: translator does not build"
+        return
+    tmp = SIMD_LEAN + ".new"
+    status_json = os.path.join(hh.BUILD, "simdgen.json")
+    rc, out, err = hh.sh([os.path.join(hh.BUILD, "t-facts", "release", "simdgen"), os.path.join(hh.REPO, "src", "x86"), tmp, status_json], timeout=300)
+    if rc != 0:
+        info["status"] = "not executed: translator failed: " + (out + err)[-300:]
+        return
+    new = open(tmp).read()
+    old = open(SIMD_LEAN).read() if os.path.exists(SIMD_LEAN) else None
+    if new != old:
+        os.replace(tmp, SIMD_LEAN)
+    else:
+        os.unlink(tmp)
+    st = json.load(open(status_json))
+    info["functions"] = st
+    translated = [k for k, v in st.items() if v == "translated"]
+    ok, blog = hh.lake_build(["HH.Generated.SimdCore"])
+    thms = ["HH.Gen." + SIMD_THMS[f] for f in translated if f in SIMD_THMS]
+    if ok:
+        ax, text = hh.audit_axioms("HH.Generated.SimdCore", thms)
+        good = [t for t in thms if ax.get(t) is not None and not (ax[t] - hh.STD_AXIOMS)]
+        info["theorems_checked"] = good
+        info["status"] = f"{len(translated)}/{len(st)} functions translated from the working tree; {len(good)}/{len(thms)} equality theorems (source translation = SSE/AVX model, all register values) checked by the kernel"
+        if len(good) == len(thms):
+            return
+    errs = [l for l in blog.split("\n") if "error" in l][:6]
+    info["status"] = (info.get("status", "") + " | generated theorems do not all check: " + " ".join(errs))[:900]
+    res.notes.append("the translated SIMD core no longer equals the SSE/AVX model by definitional unfolding: escalating the C02 search (thorough generator on the real code)")
+    binp, _ = hh.build_runner("dev-std-base")
+    if binp:
+        i2 = hh.runner_info(binp)
+        st2 = check_mod().run_config(res, "C02", "thorough", seed * 4099 + 13, "dev-std-base", binp, i2, workdir, label="esc-simd")
+        stats.append(dict(st2, escalation="simd translation"))
+
+
 _c01_cross = mk_cross("C01", gen_cross_c01, ["s390x", "i686"])
 
 
@@ -888,7 +941,7 @@ def special_c01(res, tier, seed, workdir, stats):
     _c01_cross(res, tier, seed, workdir, stats)
 
 
-T.SPECIAL.update({"C01": special_c01, "C05": mk_cross("C05", gen_cross_c05, ["s390x", "i686"]), "C06": mk_cross("C06", gen_cross_c06),
+T.SPECIAL.update({"C02": simd_translation, "C01": special_c01, "C05": mk_cross("C05", gen_cross_c05, ["s390x", "i686"]), "C06": mk_cross("C06", gen_cross_c06),
                   "C07": special_c07, "C12": mk_cross("C12", gen_cross_c12),
                   "C11": mk_cross("C11", gen_cross_c11, ["s390x", "i686"]), "C13": mk_cross("C13", gen_cross_c13), "C14": mk_cross("C14", gen_cross_c14)})
 T.SPECIAL.update({"C15": special_c15, "C09": special_c09, "C03": special_c03, "C04": special_c04, "C08": special_c08, "C16": special_c16, "C17": special_c17, "C18": special_c18})
